@@ -25,7 +25,7 @@ def _idx(ev: dict):
 def unpersisted_by_prefix(ticks: list[dict]) -> list[bool]:
     """For every prefix length k (1-based): does some step invocation whose completion is inside the prefix have an output
     (returned event, ctx.send_event event or retry re-queue) that is only persisted later?  Ground truth from the tick log of
-    the uninterrupted run plus the emitter relation of the deterministic workflow family (E1<-start / failed work, E2<-work, E3<-gather)."""
+    the uninterrupted run plus the emitter relation of the deterministic workflow family (E1<-start / failed work, E2<-work, E3<-gather, E0<-start, E4<-anon)."""
     n = len(ticks)
     sr = []  # (index, step, idx, has_result_event, failed)
     for i, t in enumerate(ticks, 1):
@@ -52,6 +52,12 @@ def unpersisted_by_prefix(ticks: list[dict]) -> list[bool]:
         elif name == "E3":
             prev = [i for (i, st_, _x, h, _f) in sr if st_ == "gather" and h and i < a]
             e = prev[-1] if prev else None
+        elif name == "E0":  # payload-less items: all sent by the start step
+            e = next((i for (i, st_, _x, _h, _f) in sr if st_ == "start"), None)
+        elif name == "E4":  # the j-th payload-less output belongs to the j-th completion of the `anon` step (FIFO: equal-valued)
+            j = sum(1 for t2 in ticks[: a - 1] if t2.get("type") == "add_event" and _tname(t2.get("event")) == "E4")
+            outs = [i for (i, st_, _x, h, _f) in sr if st_ == "anon" and h]
+            e = outs[j] if j < len(outs) else None
         if e is not None:
             emit.append((a, e))
     return [any(a > k and e <= k for a, e in emit) for k in range(1, n + 1)]
